@@ -87,6 +87,16 @@ def generate(tier, seed):
             dist["resave_after_removal"] = dist.get("resave_after_removal", 0) + 1
         cases.append(case("eng", sp, ad, "-", steps))
         dist["roundtrips"] += 1
+    # clear_policy with auto-save ON empties the store of every adapter that persists (file: the policy file itself): a reload
+    # afterwards finds nothing
+    dist["clear_then_reload"] = 0
+    for ak in "FM":
+        for _ in range(6 if tier == "quick" else 60):
+            lines = initial_lines(rnd, False, ak == "M", maxp=4)
+            ad = adapter_M(lines) if ak == "M" else adapter_F(lines)
+            steps = ["?ga:p", "?ga:g", "CL", "?ga:p", "?ga:g", "?rv", "LD", "?ga:p", "?ga:g", "?rv"]
+            cases.append(case("eng", spec_of(prio_kind()), ad, "-", steps))
+            dist["clear_then_reload"] += 1
     return {
         "cases": cases,
         "exhaustive": False,
